@@ -258,3 +258,13 @@ func VerifHsOpen(sid SessionID, key [KeyLen]byte, pkt []byte) ([]byte, error) {
 	}
 	return pt[:n], nil
 }
+
+// VerifHsSetConn replaces the socket of a server that is not serving yet (e.g. one built by
+// hopserver.NewHopServer) by the driver's in-memory connection and closes the old one.
+func (s *Server) VerifHsSetConn(c UDPLike) {
+	old := s.udpConn
+	s.udpConn = c
+	if old != nil {
+		old.Close()
+	}
+}
